@@ -12,6 +12,7 @@ package props
 import (
 	"fmt"
 	"io"
+	"net"
 	"regexp"
 	"runtime"
 	"sort"
@@ -35,10 +36,13 @@ type C13Case struct {
 	Addrs int       `json:"addrs"`
 	Plans [][]C13Op `json:"plans"`
 	Reps  int       `json:"reps"`
+	// PreFail: before the concurrent phase, another socket holds address 0 while the manager is asked to listen on
+	// it (stream and packet); the attempts fail, the socket goes away, and the plans then use the address as usual.
+	PreFail bool `json:"pre_fail"`
 }
 
 func genC13(t *rapid.T) C13Case {
-	c := C13Case{Addrs: rapid.IntRange(1, 3).Draw(t, "addrs"), Reps: 50}
+	c := C13Case{Addrs: rapid.IntRange(1, 3).Draw(t, "addrs"), Reps: 50, PreFail: rapid.IntRange(0, 3).Draw(t, "prefail") == 0}
 	g := rapid.IntRange(2, 12).Draw(t, "goroutines")
 	for i := 0; i < g; i++ {
 		n := rapid.IntRange(1, 8).Draw(t, "nops")
@@ -118,6 +122,38 @@ func runC13(c C13Case, info *kit.Info) *kit.Finding {
 				return nil, kit.Violation("manager:listen-error", "%s(%s) failed although the manager is the only user of the address: %v", map[string]string{"ls": "ListenStream", "lp": "ListenPacket"}[kind], addr, err)
 			}
 			return h, nil
+		}
+		if c.PreFail {
+			pre := make(chan *kit.Finding, 1)
+			go func() {
+				hs, e1 := net.Listen("tcp", saddr[0])
+				hp, e2 := net.ListenPacket("udp", paddr[0])
+				if e1 == nil {
+					if l, err := mgr.ListenStream(saddr[0]); err == nil {
+						l.Close()
+						hs.Close()
+						pre <- kit.Violation("manager:listen-on-held-address", "ListenStream(%s) succeeded while another socket held the address", saddr[0])
+						return
+					}
+					hs.Close()
+				}
+				if e2 == nil {
+					if l, err := mgr.ListenPacket(paddr[0]); err == nil {
+						l.Close()
+					}
+					hp.Close()
+				}
+				pre <- nil
+			}()
+			select {
+			case f := <-pre:
+				if f != nil {
+					return f
+				}
+			case <-time.After(5 * time.Second):
+				sig, dump := deadlockSignature()
+				return kit.Violation(sig, "repetition %d: a listen attempt on an address held by another socket did not return within 5 s:\n%s", rep, dump)
+			}
 		}
 		for _, plan := range c.Plans {
 			wg.Add(1)
